@@ -18,6 +18,7 @@ type DumpOpt struct {
 	CommentFlags  bool // include SameLineAsPrevious/SameLineAsNext
 	NormLambda    bool // an unnamed func and a => lambda are the same function (C14)
 	NumbersByText bool // compare number literals by spelling instead of value
+	FlattenPlus   bool // dump chains of + as one n-ary node (used only to classify the known a+(b+c) regrouping)
 }
 
 // DumpAST is the harness's own canonical structural dump of a syntax tree: a type switch over
@@ -152,6 +153,22 @@ func (d *dumper) node(n ast.Node, parent, field string) {
 		d.tok(v.Prev)
 		d.sb.WriteString(")")
 	case *ast.InfixExpression:
+		if d.opt.FlattenPlus && v.Token != nil && v.Token.Type() == token.PLUS {
+			d.sb.WriteString("(PlusChain")
+			var flat func(n ast.Node)
+			flat = func(n ast.Node) {
+				if in, ok := n.(*ast.InfixExpression); ok && in.Token != nil && in.Token.Type() == token.PLUS {
+					flat(in.Left)
+					flat(in.Right)
+					return
+				}
+				d.sb.WriteByte(' ')
+				d.node(n, "Infix", "Operand")
+			}
+			flat(v)
+			d.sb.WriteString(")")
+			return
+		}
 		d.sb.WriteString("(Infix")
 		d.tok(v.Token)
 		d.sb.WriteByte(' ')
